@@ -58,7 +58,7 @@ ERR_BAD_EXT = "Model file {} has an unsupported extension: {}"
 IDTYPES = frozenset({"id", "uid", "xmi:id"})
 IDTYPES_RESOLVED = frozenset(helpers.resolve_namespace(t) for t in IDTYPES)
 IDTYPES_PER_FILETYPE: t.Final[dict[str, frozenset]] = {
-    ".afm": frozenset(),
+    ".afm": frozenset({"id"}),
     ".aird": frozenset({"uid", helpers.resolve_namespace("xmi:id")}),
     ".airdfragment": frozenset({"uid", helpers.resolve_namespace("xmi:id")}),
     ".capella": frozenset({"id"}),
